@@ -20,11 +20,6 @@ namespace Pya.C13
 
 /-! ## structural equality and `typing`'s `==` -/
 
-def objsSame : List Obj → List Obj → Bool
-  | [], [] => true
-  | a :: as, b :: bs => Obj.same a b && objsSame as bs
-  | _, _ => false
-
 mutual
 /-- structural equality of expressions (equality of the source text) -/
 def AnnExpr.beq : AnnExpr → AnnExpr → Bool
@@ -39,7 +34,7 @@ def AnnExpr.beq : AnnExpr → AnnExpr → Bool
   | .tupV o a, .tupV o' b => o == o' && AnnExpr.beq a b
   | .unpack a, .unpack b => AnnExpr.beq a b
   | .star a, .star b => AnnExpr.beq a b
-  | .lit os, .lit os' => objsSame os os'
+  | .lit os, .lit os' => os == os'
   | .typ o a, .typ o' b => o == o' && AnnExpr.beq a b
   | .ann a k, .ann b k' => k == k' && AnnExpr.beq a b
   | .final a, .final b => AnnExpr.beq a b
@@ -71,7 +66,7 @@ def teq : AnnExpr → AnnExpr → Bool
   | .tupV o a, .tupV o' b => o == o' && teq a b
   | .unpack a, .unpack b => teq a b
   | .star a, .star b => teq a b
-  | .lit os, .lit os' => os.all (fun o => os'.any (Obj.same o)) && os'.all (fun o => os.any (Obj.same o))
+  | .lit os, .lit os' => os.all (fun o => os'.contains o) && os'.all (fun o => os.contains o)
   | .typ o a, .typ o' b => o == o' && teq a b
   | .ann a k, .ann b k' => k == k' && teq a b
   | .final a, .final b => teq a b
@@ -116,10 +111,10 @@ def mkTUnion (args : List AnnExpr) : AnnExpr :=
   | xs => .union xs
 
 /-- `Literal[...]` de-duplicates its arguments by (value, type). -/
-def dedupObjsGo : List Obj → List Obj → List Obj
+def dedupObjsGo : List LitObj → List LitObj → List LitObj
   | acc, [] => acc
-  | acc, o :: os => if acc.any (fun a => Obj.same a o) then dedupObjsGo acc os else dedupObjsGo (acc ++ [o]) os
-def dedupObjs (os : List Obj) : List Obj := dedupObjsGo [] os
+  | acc, o :: os => if acc.contains o then dedupObjsGo acc os else dedupObjsGo (acc ++ [o]) os
+def dedupObjs (os : List LitObj) : List LitObj := dedupObjsGo [] os
 
 mutual
 /-- the object `typing` builds for the expression, written as an expression in normal form -/
@@ -173,13 +168,28 @@ def swapOptL : List AnnExpr → List AnnExpr
   | e :: es => swapOpt e :: swapOptL es
 end
 
-/-! ## the supported fragment -/
-
-/-- literal objects `Literal[...]` may hold: int, bool, str, bytes, None, enum members -/
-def simpleObj : Obj → Bool
-  | .int _ => true | .bool _ => true | .str _ => true | .bytes _ => true | .none => true
-  | .inst _ _ => true
+mutual
+/-- an `Optional[...]` outside string constants -/
+def AnnExpr.hasOpt : AnnExpr → Bool
+  | .opt _ => true
+  | .gen _ _ args => AnnExpr.hasOptL args
+  | .tup _ ms => AnnExpr.hasOptL ms
+  | .tupV _ e => e.hasOpt
+  | .unpack e => e.hasOpt
+  | .star e => e.hasOpt
+  | .typ _ e => e.hasOpt
+  | .ann e _ => e.hasOpt
+  | .final e => e.hasOpt
+  | .classVar e => e.hasOpt
+  | .union es => AnnExpr.hasOptL es
+  | .bor a b => a.hasOpt || b.hasOpt
   | _ => false
+def AnnExpr.hasOptL : List AnnExpr → Bool
+  | [] => false
+  | e :: es => e.hasOpt || AnnExpr.hasOptL es
+end
+
+/-! ## the supported fragment -/
 
 def isTupleForm : AnnExpr → Bool
   | .tup _ _ => true | .tupE _ => true | .tupV _ _ => true
@@ -209,7 +219,7 @@ def supp (mem : Bool) : AnnExpr → Bool
   | .tupV _ e => supp false e
   | .unpack e => mem && isTupleForm e && supp false e
   | .star e => mem && isTupleForm e && supp false e
-  | .lit os => !os.isEmpty && os.all simpleObj
+  | .lit os => !os.isEmpty
   | .typ _ e => typArgOk e && supp false e
   | .ann e k => k != 0 && supp false e
   | .final e => supp false e
@@ -286,27 +296,85 @@ taken when the annotation is quoted — yields `Any[error]`, while the runtime r
 qualifier (annotations.py:1212). -/
 def D13_finalQuoted (e : AnnExpr) : Bool := e.finalU
 
-def Res.same (a b : Res) : Bool := Ty.hashEq a.ty b.ty && a.errs == b.errs && a.unp == b.unp
+mutual
+/-- structural equality of objects (decides `=`, see `Proofs/C13.lean : Obj.eqb_eq`) -/
+def Obj.eqb : Obj → Obj → Bool
+  | .int a, .int b => a == b
+  | .bool a, .bool b => a == b
+  | .str a, .str b => a == b
+  | .bytes a, .bytes b => a == b
+  | .none, .none => true
+  | .flt a, .flt b => a == b
+  | .cplx a, .cplx b => a == b
+  | .inst c i, .inst d j => c == d && i == j
+  | .cls c, .cls d => c == d
+  | .tuple xs, .tuple ys => Obj.eqbL xs ys
+  | .list xs, .list ys => Obj.eqbL xs ys
+  | .set xs, .set ys => Obj.eqbL xs ys
+  | .fset xs, .fset ys => Obj.eqbL xs ys
+  | .dict ks vs, .dict ks' vs' => Obj.eqbL ks ks' && Obj.eqbL vs vs'
+  | _, _ => false
+def Obj.eqbL : List Obj → List Obj → Bool
+  | [], [] => true
+  | x :: xs, y :: ys => Obj.eqb x y && Obj.eqbL xs ys
+  | _, _ => false
+end
+
+mutual
+/-- structural equality of value terms (decides `=`, see `Proofs/C13.lean : Ty.eqb_eq`) -/
+def Ty.eqb : Ty → Ty → Bool
+  | .any, .any => true
+  | .known a, .known b => Obj.eqb a b
+  | .typed c, .typed d => c == d
+  | .newtype n c, .newtype m d => n == m && c == d
+  | .generic c as, .generic d bs => c == d && Ty.eqbL as bs
+  | .seq c as, .seq d bs => c == d && Ty.eqbL as bs
+  | .many a, .many b => Ty.eqb a b
+  | .union as, .union bs => Ty.eqbL as bs
+  | .subclass c, .subclass d => c == d
+  | .annotated a, .annotated b => Ty.eqb a b
+  | .tvar i, .tvar j => i == j
+  | _, _ => false
+def Ty.eqbL : List Ty → List Ty → Bool
+  | [], [] => true
+  | a :: as, b :: bs => Ty.eqb a b && Ty.eqbL as bs
+  | _, _ => false
+end
+
+def Res.same (a b : Res) : Bool := Ty.eqb a.ty b.ty && a.errs == b.errs && a.unp == b.unp
 def optResSame : Option Res → Option Res → Bool
   | none, none => true
   | some a, some b => Res.same a b
   | _, _ => false
 
-/-- the runtime route on `Union[args]` without `typing`'s de-duplication -/
+/-- the runtime route on `Union[args]` as written, without anything `typing` does to a union -/
 def rtUnionOf (args : List AnnExpr) : Option Res :=
   (rtEvalL args).map fun (ts, n) => ⟨unite ts, n, false⟩
 
-/-- at one union node with (normalised) arguments `args`: does `typing`'s own de-duplication change
-what the runtime route computes? -/
-def dedupMatters (args : List AnnExpr) : Bool :=
-  let flat := args.flatMap unionArgs
-  !optResSame (rtUnionOf (tdedup flat)) (rtUnionOf flat)
+/-- at one union node with (normalised) arguments `args`: does what `typing` does to the union
+(flattening nested unions, dropping `==` arguments, collapsing a single argument) change what the
+runtime route computes? Flattening and collapsing never do (`unite_values` flattens and collapses
+itself); dropping an argument does when pyanalyze's values for the two `==` arguments differ. -/
+def normMatters (args : List AnnExpr) : Bool :=
+  !(optResSame (rtEval false (mkTUnion args)) (rtUnionOf args) &&
+    optResSame (rtEval true (mkTUnion args)) (rtUnionOf args))
+
+/-- at a `Literal[...]` node: does `typing`'s de-duplication of the arguments change the result?
+(It never does: `unite_values` drops the same duplicates.) -/
+def litMatters (os : List LitObj) : Bool :=
+  !optResSame (rtEval false (.lit (dedupObjs os))) (astEval false (.lit os))
 
 mutual
-/-- **R13.typingDedup** (representation only): somewhere in the expression `typing` drops a union
-argument that is `==` to an earlier one although pyanalyze's values for the two differ — unions
-nested in generics in different orders (`Union[List[int | str], List[str | int]]`: `typing` keeps
-one argument, `unite_values`, which compares hashes, keeps both). -/
+/-- **R13.typingDedup** (representation only). Defined node by node and semantically: at some
+`Union[...]` / `|` / `Optional[...]` / `Literal[...]` of the expression, evaluating the object
+`typing` builds (flattened, `==` arguments dropped, a single argument collapsed) with the runtime
+route gives something else than evaluating the union / literal as written (`normMatters`,
+`litMatters`). In practice this happens exactly when `typing` drops a union argument that is `==` to
+an earlier one although pyanalyze's values for the two differ — unions nested in generics in
+different orders (`Union[List[int | str], List[str | int]]`: `typing` keeps one argument,
+`unite_values`, which compares hashes, keeps both); flattening, collapsing and `Literal`
+de-duplication are repeated by `unite_values` itself (`plainUnions` is a syntactic sufficient
+condition for the class to be empty, `Proofs/C13.lean : plain_R13`). -/
 def R13_typingDedup : AnnExpr → Bool
   | .gen _ _ args => R13_typingDedupL args
   | .tup _ ms => R13_typingDedupL ms
@@ -317,13 +385,39 @@ def R13_typingDedup : AnnExpr → Bool
   | .ann e _ => R13_typingDedup e
   | .final e => R13_typingDedup e
   | .classVar e => R13_typingDedup e
-  | .opt e => R13_typingDedup e || dedupMatters [tnorm e, .none]
-  | .union es => R13_typingDedupL es || dedupMatters (tnormL es)
-  | .bor a b => R13_typingDedup a || R13_typingDedup b || dedupMatters [tnorm a, tnorm b]
+  | .opt e => R13_typingDedup e || normMatters [tnorm e, .none]
+  | .union es => R13_typingDedupL es || normMatters (tnormL es)
+  | .bor a b => R13_typingDedup a || R13_typingDedup b || normMatters [tnorm a, tnorm b]
+  | .lit os => litMatters os
   | _ => false
 def R13_typingDedupL : List AnnExpr → Bool
   | [] => false
   | e :: es => R13_typingDedup e || R13_typingDedupL es
+end
+
+mutual
+/-- a purely syntactic sufficient condition for `R13_typingDedup e = false`: `typing` has nothing to
+do to any union or `Literal` of `e` — every `Literal[...]` has pairwise distinct arguments and every
+`Union[...]` / `|` / `Optional[...]` has (after normalising its arguments) at least two arguments,
+none of them a union, no two of them `==`. -/
+def plainUnions : AnnExpr → Bool
+  | .gen _ _ args => plainUnionsL args
+  | .tup _ ms => plainUnionsL ms
+  | .tupV _ e => plainUnions e
+  | .unpack e => plainUnions e
+  | .star e => plainUnions e
+  | .typ _ e => plainUnions e
+  | .ann e _ => plainUnions e
+  | .final e => plainUnions e
+  | .classVar e => plainUnions e
+  | .opt e => plainUnions e && AnnExpr.beq (mkTUnion [tnorm e, .none]) (.union [tnorm e, .none])
+  | .union es => plainUnionsL es && AnnExpr.beq (mkTUnion (tnormL es)) (.union (tnormL es))
+  | .bor a b => plainUnions a && plainUnions b && AnnExpr.beq (mkTUnion [tnorm a, tnorm b]) (.union [tnorm a, tnorm b])
+  | .lit os => decide os.Nodup
+  | _ => true
+def plainUnionsL : List AnnExpr → Bool
+  | [] => true
+  | e :: es => plainUnions e && plainUnionsL es
 end
 
 /-! ## `inspect.signature` of a def header -/
@@ -375,18 +469,28 @@ def DefArgs.WF (d : DefArgs) : Bool :=
 /-- **D13.dunderPosOnly**: a positional-or-keyword parameter is named `__x`. `from_signature`
 applies the PEP 484 convention (the parameter *and every parameter before it* become
 positional-only, arg_spec.py:497), `compute_parameters` does not. -/
-def D13_dunderPosOnly (d : DefArgs) : Bool := d.args.any fun a => isDunderName a.name
+def D13_dunderPosOnly (d : DefArgs) : Bool :=
+  (inspectOf d).params.any fun p => p.kind == .posOrKw && isDunderName p.name
 
 /-- **R13.unannotated** (representation only): an unannotated parameter that has a default, or is
 `*args` / `**kwargs`: the def route records `Any | <default>` / `tuple[Any, ...]` /
 `dict[str, Any]`, the inspect route plain `Any` (arg_spec.py:574 returns before
 `translate_vararg_type`). -/
 def R13_unannotated (d : DefArgs) : Bool :=
-  (d.vararg.any fun a => a.ann.isNone) || (d.kwarg.any fun a => a.ann.isNone) ||
-  ((zipLongest d.kinded d.alignedDefaults).zipIdx.any fun (x, i) =>
-    match x with
-    | (some (_, a), some (some _)) => a.ann.isNone && !(i == 0 && d.methodOf.isSome)
-    | _ => false)
+  (inspectOf d).params.any fun p => p.ann.isNone && (p.dflt.isSome || p.kind == .varPos || p.kind == .varKw)
+
+/-- what the property compares of a default: presence, and the literal if it is one -/
+def DVal.erase : DVal → Option Obj
+  | .known o => some o
+  | _ => none
+
+/-- what the property compares of a parameter: name, kind, default (presence / literal),
+annotation value, errors shown -/
+def SigParam.core (p : SigParam) : String × Kind × Option (Option Obj) × Ty × Nat :=
+  (p.name, p.kind, p.dflt.map DVal.erase, p.ann, p.errs)
+
+def SigOut.core (s : SigOut) : List (String × Kind × Option (Option Obj) × Ty × Nat) × Ty × Bool × Nat :=
+  (s.params.map SigParam.core, s.ret, s.hasRet, s.retErrs)
 
 def PArg.annAll (p : AnnExpr → Bool) (a : PArg) : Bool :=
   match a.ann with
